@@ -1006,6 +1006,8 @@ func runScripted(r *mon.Run, sc scriptedCase) {
 			}
 		}
 		t0 = time.Now()
+		r.Eval(1)
+		r.Event("scripted_rounds", 1)
 		r.Nontrivial(fmt.Sprintf("scripted dyn%v w%d scripts%v", cfg.Dyn, cfg.WindowMS, sc.Scripts))
 	}
 
